@@ -210,3 +210,11 @@ func (broker *Broker) VerifReleaseRetry(files []sts.Polled) (requeued [][]sts.Ha
 		}
 	}
 }
+
+// VerifStopRequested reports whether a stop request has reached the broker's flags
+// (stopped, and whether immediately).
+func (broker *Broker) VerifStopRequested() (stop, now bool) {
+	broker.stopMux.RLock()
+	defer broker.stopMux.RUnlock()
+	return broker.stop, broker.stop && !broker.stopGraceful
+}
